@@ -131,6 +131,9 @@ def structural_focus(o, v):
     for i in v["tokens"]:
         if o.cat[i] == "kw" and o.key[i] == "U":
             return "kwarg-unresolved-callee"
+    for i in v["tokens"]:
+        if o.cat[i] == "attr" and o.key[i] == "U" and by_id[i].name in o.info.class_global:
+            return "global-in-class-body-as-attribute"
     for i in [v["query"]] + list(v["tokens"]):
         k = o.key[i]
         if o.cat[i] == "attr" and isinstance(k, tuple) and k[0] == "var" and (k[1], by_id[i].name) in o.info.hidden_attr:
@@ -204,6 +207,12 @@ def replay(ctx, obj):
         a1, a3 = L.history_dependent(src, src.index(obj["first"][0]) + obj["first"][1],
                                      src.index(obj["other"][0]) + obj["other"][1])
         return a1 != a3
+    if obj.get("kind") == "project":
+        obs = L.observe_project(obj["files"])
+        if obs is None:
+            return True
+        verdicts, _keys = L.judge_project(obs)
+        return bool(verdicts)
     if obj.get("kind") != "module":
         return True
     r = analyse(ctx, obj["src"])
@@ -253,7 +262,8 @@ def check_modules(ctx, sources, stream):
         if o is None:
             ctx.count("untranslatable:" + stream)
             continue
-        if any(isinstance(r, str) and r == "EXC:MismatchedTokenError" for r in o.rope.values()) and patchedast_fails(src):
+        if any(isinstance(r, str) for r in o.rope.values()) and patchedast_fails(src):
+            # the patched AST cannot be built for this text (MismatchedTokenError and friends): C08's findings
             ctx.count("patchedast-fails(C08):" + stream)
             continue
         obs.append(o)
@@ -326,15 +336,109 @@ def check_modules(ctx, sources, stream):
             return
 
 
+def check_projects(ctx, n):
+    """two-module projects: imports resolve. Oracle only (the Coq model is about one module); the reasons a token is
+    outside the domain still come from Coq, module by module"""
+    for _ in range(n):
+        files = c02_gen.gen_project(ctx.rng)
+        if files is None:
+            continue
+        obs = L.observe_project(files)
+        if obs is None:
+            ctx.count("untranslatable:multi")
+            continue
+        if any(isinstance(r, str) for o in obs.values() for r in o.rope2.values()) \
+                and any(patchedast_fails(s) for s in files.values()):
+            ctx.count("patchedast-fails(C08):multi")
+            continue
+        paths = sorted(obs)
+        for pth in paths:
+            obs[pth].rope = {t.id: [] for t in obs[pth].tokens}      # not compared: only the reasons are used
+            obs[pth].stray = {}
+        results = coq_results(ctx, [obs[pth] for pth in paths])
+        reasons = {pth: r[2] for pth, r in zip(paths, results)}
+        if not all(r[3] for r in results):
+            ctx.count("skipped_outside_C15_fragment:multi")
+            continue
+        ntok = sum(len(o.tokens) for o in obs.values())
+        ctx.case(tuple(sorted(files.items())), nontrivial=True)
+        ctx.count("modules:multi", 2)
+        ctx.count("queries", ntok)
+        verdicts, keys = L.judge_project(obs)
+        cross = sum(1 for o in obs.values() for r in o.rope2.values()
+                    if not isinstance(r, str) and len({m for m, _ in r}) > 1)
+        ctx.count("multi_queries_with_occurrences_in_both_modules", cross)
+        seen = set()
+        for v in verdicts:
+            o = obs[v["module"]]
+            focus = None
+            if v["kind"] == "stray":
+                src_of = files
+                ok = all(src_of[m][off:off + 1 + len(by_tok(o, v["query"]).name)][-1:] in ("'", '"')
+                         and by_tok(o, v["query"]).name in ("f", "b", "r", "u") for (m, off) in v["offsets"])
+                focus = "string-prefix-as-occurrence" if ok else None
+            elif v["kind"] == "exception":
+                focus = structural_focus(o, dict(v)) if v["exc"] == "EXC:IndexError" else None
+            else:
+                involved = [(v["module"], v["query"])] + list(v["tokens"])
+                for (m, i) in involved:
+                    if i in obs[m].skip:
+                        r = obs[m].skip[i]
+                        focus = "tuple-target-as-keyword" if r.startswith("kwlike-") else r
+                if focus is None:
+                    inv2 = list(involved)
+                    for (m, i) in involved:
+                        b = obs[m].info.base_of.get(i)
+                        if b is not None:
+                            inv2.append((m, b))
+                    rs = sorted({reasons[m].get(i, 0) for (m, i) in inv2} - {0, 10})
+                    if rs:
+                        focus = REASON_FOCUS.get(rs[0])
+                        if rs[0] == 3 and any(reasons[m].get(i) == 3 and class_env(obs[m], by_tok(obs[m], i)) for (m, i) in inv2):
+                            focus = "header-class-attribute"
+                if focus is None:
+                    for (m, i) in involved:
+                        t = by_tok(obs[m], i)
+                        if obs[m].cat[i] == "kw" and keys[(m, i)] == "U":
+                            focus = "kwarg-unresolved-callee"
+                        k = obs[m].key[i]
+                        if obs[m].cat[i] == "attr" and isinstance(k, tuple) and k[0] == "var" \
+                                and (k[1], t.name) in obs[m].info.hidden_attr:
+                            focus = "instance-attribute-assigned-in-for-or-with"
+                        if obs[m].cat[i] == "attr" and k == "U" and t.name in obs[m].info.class_global:
+                            focus = "global-in-class-body-as-attribute"
+            if focus in seen:
+                continue
+            seen.add(focus)
+            if focus is None:
+                ctx.violation({"kind": "project", "files": files, "focus": "unexplained", "verdict": v},
+                              "two-module project: rope's occurrences differ from the binding map of the oracle (%s, %s token %r, %r)"
+                              % (v["kind"], v["module"], v["query"], v.get("tokens")))
+            elif focus.startswith("inherited:"):
+                ctx.count(focus)
+            else:
+                ctx.violation({"kind": "module", "src": files["mod_under_test.py"], "focus": focus, "stream": "multi"},
+                              "known departure: " + focus)
+        if ctx.too_many():
+            return
+
+
+def by_tok(o, i):
+    for t in o.tokens:
+        if t.id == i:
+            return t
+    return None
+
+
 def run(ctx):
     ctx.rule = ("modules from harness/c02_gen.py (tiny shared identifier pool for variables, parameters, attributes and "
                 "keyword arguments; comments / strings / f-strings containing the identifiers), from the foreign "
                 "generator harness/c15_gen.py, and fixed modules; for every identifier token of every module "
                 "find_occurrences is called and the whole partition is compared with the Coq model and with the "
                 "symtable-based oracle. Non-trivial = at least 6 identifier tokens; distinct by source text.")
-    n_main = ctx.scale(150, 2200)
-    n_plus = ctx.scale(60, 900)
-    n_c15 = ctx.scale(50, 700)
+    n_main = ctx.scale(150, 1500)
+    n_plus = ctx.scale(60, 600)
+    n_c15 = ctx.scale(50, 500)
     fixed = list(FIXED) + [c02_witness.EXAMPLE] + [s for (s, _t) in c02_witness.WITNESSES.values()]
     check_modules(ctx, fixed, "fixed")
     rng = ctx.rng
@@ -358,6 +462,8 @@ def run(ctx):
 
     batch(plus, n_plus, "plus")
     batch(lambda: c15_gen.gen_module(rng, ()), n_c15, "c15")
+    if not ctx.too_many():
+        check_projects(ctx, ctx.scale(25, 200))
     ctx.extra["streams"] = {"main": n_main, "plus": n_plus, "c15": n_c15, "fixed": len(fixed)}
     ctx.assumptions.append("imports never resolve (one-module scratch project); keyword arguments and attributes are "
                            "compared with the model only where no type inference is involved")
